@@ -198,7 +198,7 @@ func states() []state {
 		w.pc(0, 0, w.ids[0])
 		w.pc(1, 0, w.ids[0])
 		if w.n.App.Height() != 1 {
-			vk.Fatalf("scripted prefix did not commit height 1")
+			panic("honest height 1 (proposal, block, every other validator's prevote and precommit) did not commit")
 		}
 		w.makeBlocks()
 	}
@@ -212,7 +212,7 @@ func states() []state {
 		w.pc(0, 0, w.ids[0])
 		w.pc(1, 0, w.ids[0])
 		if w.n.App.Height() != h {
-			vk.Fatalf("scripted prefix did not commit height %d", h)
+			panic(fmt.Sprintf("honest height %d (proposal, block, every other validator's prevote and precommit) did not commit", h))
 		}
 		w.makeBlocks()
 	}
@@ -871,7 +871,15 @@ func runCase(f *csnet.Fixture, st state, hs []hostile, cont int) outcome {
 	var o outcome
 	w := newWorld(f)
 	defer w.close()
-	st.prep(w)
+	// the scripted way into the state is fully honest: a node that panics on it halts without any hostile input at all
+	if p, v := vk.Catch(func() { st.prep(w) }); p {
+		txt := fmt.Sprint(v)
+		if len(txt) > 90 {
+			txt = txt[:90]
+		}
+		o.viol = [2]string{"honest-run-panics-node:" + txt, fmt.Sprintf("the honest scripted inputs leading to state %s make the node panic: %v", st.name, v)}
+		return o
+	}
 	// the peer is an ordinary connected peer up to now: it has announced that it is at the node's height and round (what
 	// every peer does on connecting and at every step), so the reactor's PeerState is not the all-zero initial one
 	if len(hs) == 0 || !hs[0].fresh {
